@@ -389,5 +389,6 @@ def run(ctx):
             okw = bool(wb) and bool(ge) and not f.must_pass(ge, wb) and all(not any(x in f.reachable(s_, removed_blocks=wb) for x in f.return_blocks()) for (_, s_) in ge)
             rep.check(r6, okw, '%s:%s-at-End' % (ty.split('::')[-1], fld), '%s is stored exactly when the parser state is End: %s' % (fld, okw), f.loc(wb[0]) if wb else '')
     dispatch_sound(ctx, 'C14', 'a datagram reaches the DNS parser (after NO_MATCH)')
+    no_abort_in(ctx, 'C14', r'proto::dns::', 'answering DNS')
 
 
